@@ -84,7 +84,9 @@ def lib():
     from qce_circuit.structure.intrf_circuit_operation import RelationLink, RelationType, QubitChannel
     from qce_circuit.structure.intrf_circuit_operation_composite import ICircuitCompositeOperation
     from qce_circuit.structure.registry_repetition import FixedRepetitionStrategy
-    from qce_circuit.structure.registry_duration import FixedDurationStrategy
+    from qce_circuit.structure.registry_duration import (FixedDurationStrategy, DynamicDurationStrategy, RegistryDurationStrategy,
+                                                         GlobalDurationStrategy, GlobalRegistryKey, DurationRegistry)
+    from qce_circuit.structure.registry_repetition import DynamicRepetitionStrategy, RegistryRepetitionStrategy, RepetitionRegistry
     from qce_circuit.addon_openql.factory_manager import to_openql, OpenQLFactoryManager
     from qce_circuit.addon_openql.platform_manager import PlatformManager
     import openql
@@ -94,17 +96,63 @@ def lib():
     _LIB.update(DeclarativeCircuit=DeclarativeCircuit, kinds=kinds, RelationLink=RelationLink, RelationType=RelationType,
                 QubitChannel=QubitChannel, Composite=ICircuitCompositeOperation, FixedRepetitionStrategy=FixedRepetitionStrategy,
                 FixedDurationStrategy=FixedDurationStrategy, to_openql=to_openql, Manager=OpenQLFactoryManager,
-                PlatformManager=PlatformManager, ql=openql)
+                PlatformManager=PlatformManager, ql=openql, DynamicDurationStrategy=DynamicDurationStrategy,
+                RegistryDurationStrategy=RegistryDurationStrategy, GlobalDurationStrategy=GlobalDurationStrategy,
+                GlobalRegistryKey=GlobalRegistryKey, DurationRegistry=DurationRegistry, DynamicRepetitionStrategy=DynamicRepetitionStrategy,
+                RegistryRepetitionStrategy=RegistryRepetitionStrategy, RepetitionRegistry=RepetitionRegistry)
     return _LIB
 
 
 # --------------------------------------------------------------------------------------------------
 # build programs  (JSON)  ->  real circuits through the public API
-#   leaf: {"op": kind, "q": [..], "dur": d?, "chan": name?, "rel": {"ref": i, "type": name}?}
-#   sub : {"sub": [items], "reps": r}
+#   leaf: {"op": kind, "q": [..], "dur": d?, "chan": name?, "rel": {"ref": i, "type": name}?,
+#          "dstrat": "dynamic"|"registry"|"global:<KEY>"?}   duration strategy other than FixedDurationStrategy: a fresh lambda /
+#          a fresh DurationRegistry per build (value "dur"), or the global registry; passed to the constructor of Wait, assigned to
+#          the public dataclass field `duration_strategy` of any other kind
+#   sub : {"sub": [items], "reps": r, "rstrat": "dynamic"|"registry"?}   repetition strategy other than FixedRepetitionStrategy
 #   program: {"items": [...], "circuit_id": str|None, "as_structure": bool, "check": "general"|"table"|...}
 # --------------------------------------------------------------------------------------------------
+def duration_strategy(it):
+    """a NEW strategy object per call (fresh lambda / fresh registry), as a user's build routine would create it"""
+    L = lib()
+    d = it.get("dur", 0)
+    how = it.get("dstrat")
+    if how is None:
+        return L["FixedDurationStrategy"](d)
+    if how == "dynamic":
+        return L["DynamicDurationStrategy"](duration_call=lambda: d)
+    if how == "registry":
+        reg = L["DurationRegistry"]()
+        reg.set_registry_at("c15_key_%s" % d, d)
+        return L["RegistryDurationStrategy"](registry=reg, registry_key="c15_key_%s" % d)
+    if how.startswith("global:"):
+        return L["GlobalDurationStrategy"](L["GlobalRegistryKey"][how.split(":")[1]])
+    raise ValueError(how)
+
+
+def repetition_strategy(it):
+    L = lib()
+    r = it["reps"]
+    how = it.get("rstrat")
+    if how is None:
+        return L["FixedRepetitionStrategy"](r)
+    if how == "dynamic":
+        return L["DynamicRepetitionStrategy"](repetitions_call=lambda: r)
+    if how == "registry":
+        reg = L["RepetitionRegistry"]()
+        reg.set_registry_at("c15_rep_%d" % r, r)
+        return L["RegistryRepetitionStrategy"](registry=reg, registry_key="c15_rep_%d" % r)
+    raise ValueError(how)
+
+
 def make_leaf(it, circ, rel):
+    op = _make_leaf(it, circ, rel)
+    if it.get("dstrat") and it["op"] != "Wait":
+        op.duration_strategy = duration_strategy(it)
+    return op
+
+
+def _make_leaf(it, circ, rel):
     L = lib()
     kind, q = it["op"], it["q"]
     cls = L["kinds"][kind]
@@ -116,7 +164,7 @@ def make_leaf(it, circ, rel):
     if kind == "Wait":
         if "chan" in it:
             kw["qubit_channel"] = L["QubitChannel"][it["chan"]]
-        return cls(q[0], duration_strategy=L["FixedDurationStrategy"](it.get("dur", 0)), **kw)
+        return cls(q[0], duration_strategy=duration_strategy(it), **kw)
     if kind in ("VirtualVacant", "VirtualEmpty") and "chan" in it:
         kw["qubit_channel"] = L["QubitChannel"][it["chan"]]
     if kind in TWO_Q:
@@ -131,7 +179,7 @@ def fill(circ, items):
     added = []
     for it in items:
         if "sub" in it:
-            sub = L["DeclarativeCircuit"](repetition_strategy=L["FixedRepetitionStrategy"](it["reps"]))
+            sub = L["DeclarativeCircuit"](repetition_strategy=repetition_strategy(it))
             fill(sub, it["sub"])
             added.append(circ.add(sub))
             continue
@@ -596,6 +644,31 @@ def outcome(rec, out, exc):
     return {"executed": seq, "kernels": [k["name"] for k in prec["kernels"]], "names": rec.names()}
 
 
+def features(items):
+    out = set()
+    for it in items:
+        if "sub" in it:
+            if it.get("rstrat"):
+                out.add("%s-repetition" % it["rstrat"])
+            out |= features(it["sub"])
+        elif it.get("dstrat"):
+            out.add("%s-duration" % it["dstrat"].split(":")[0])
+    return out
+
+
+def names_key(situation, program, a, b):
+    """C15:names:not-deterministic:<situation>:<what differs>:<strategy class of the program>"""
+    if len(a) != len(b) or [x[0] for x in a] != [x[0] for x in b]:
+        what = "sequence-of-constructions"
+    else:
+        what = "+".join(sorted({"program-names" if x[0] == "P" else "kernel-names" for x, y in zip(a, b) if x != y}))
+    # ONE class per program: the most identity-laden strategy kind it contains (fresh callable > fresh registry object > global registry)
+    have = features(program["items"])
+    feat = next((f for f in ("dynamic-duration", "dynamic-repetition", "registry-duration", "registry-repetition", "global-duration") if f in have),
+                "fixed-strategies-only")
+    return "C15:names:not-deterministic:%s:%s:%s" % (situation, what, feat)
+
+
 def evaluate(program, primary="real", do_names=True, do_cqasm=True, do_cross=True):
     """-> dict(evals={clause: n}, failures=[...], skipped=reason|None, sample=...)
     primary "real": everything on the real openql (+ cQASM cross-check, + comparison with the hybrid recording);
@@ -667,9 +740,11 @@ def evaluate(program, primary="real", do_names=True, do_cqasm=True, do_cross=Tru
         rec3, _, _ = export(build(program), program, "fake")          # same build program, fresh objects
         n1, n2, n3 = rec.names(), rec2.names(), rec3.names()
         if n1 != n2:
-            fail("C15:names:same-object-exported-twice-differs", "same circuit -> same program and kernel names", "construct_uuid", n2, n1)
+            fail(names_key("same-object-exported-twice", program, n1, n2), "same circuit -> same program and kernel names",
+                 "OpenQLCircuitFactoryManager.construct_uuid / construct", n2, n1)
         elif n1 != n3:
-            fail("C15:names:same-build-program-rebuilt-differs", "same circuit -> same program and kernel names", "construct_uuid", n3, n1)
+            fail(names_key("rebuilt-program", program, n1, n3), "same circuit (same build program, built again by the same routine) -> same program and kernel names",
+                 "OpenQLCircuitFactoryManager.construct_uuid / construct", n3, n1)
 
     if primary != "real":
         return res
@@ -769,6 +844,19 @@ def rand_items(rng, depth, nq, maxdepth):
     return items
 
 
+def decorate(rng, items):
+    """give some operations / sub-circuits a non-fixed duration / repetition strategy"""
+    for it in items:
+        if "sub" in it:
+            if rng.random() < 0.5:
+                it["rstrat"] = rng.choice(["dynamic", "registry"])
+            decorate(rng, it["sub"])
+        elif rng.random() < 0.5:
+            it["dstrat"] = rng.choice(["dynamic", "dynamic", "registry", "global:MICROWAVE", "global:FLUX"])
+            if it["op"] != "Wait" and not it["dstrat"].startswith("global"):
+                it["dur"] = rng.choice([0, 1, 2, 5])
+
+
 def r_program(seed, index):
     rng = random.Random("c15/%d/%d" % (seed, index))
     nq = rng.choice([2, 3, 5])
@@ -777,6 +865,8 @@ def r_program(seed, index):
         prog["circuit_id"] = "cid_%d" % rng.randrange(1000)
     if rng.random() < 0.1:
         prog["apply_modifiers"] = True
+    if rng.random() < 0.15:
+        decorate(rng, prog["items"])
     return prog
 
 
@@ -813,6 +903,30 @@ def t_space():
             P([u], "unsupported", kind)
             P([L1("Rx180", q), u, L1("Ry90", q)], "unsupported", kind)
             P([L1("Rx180", q), u, L1("Ry90", q), L1("CPhase", q, q + 1)], "unsupported", kind)
+
+    # ---- non-fixed duration / repetition strategies (a fresh lambda / registry object per build): name determinism
+    def N(items, **kw):
+        d = {"items": items, "circuit_id": None, "as_structure": False, "check": "names"}
+        d.update(kw)
+        out.append(d)
+    wd = L1("Wait", 0, dur=5, dstrat="dynamic")
+    N([wd])
+    N([L1("Rx180", 0), L1("Wait", 0, dur=20, dstrat="dynamic"), L1("Ry90", 0)])
+    N([L1("Rx180", 0), L1("Wait", 0, dur=20, dstrat="dynamic"), L1("Ry90", 0)], as_structure=True, circuit_id="cid_dyn")
+    N([L1("Wait", 1, dur=7, dstrat="registry")])
+    N([L1("Hadamard", 1), L1("Wait", 1, dur=7, dstrat="registry"), L1("Wait", 2, dur=3, dstrat="dynamic")])
+    for gk in ("MICROWAVE", "FLUX", "READOUT", "RESET"):
+        N([L1("Wait", 0, dstrat="global:" + gk), L1("Rx90", 0)])
+    N([L1("Rx180", 0, dur=4, dstrat="dynamic"), L1("CPhase", 0, 1, dur=6, dstrat="dynamic"), L1("Barrier", 0, 1, dur=1, dstrat="dynamic")])
+    N([L1("Ry180", 2, dur=4, dstrat="registry"), L1("DispersiveMeasure", 2, dur=9, dstrat="registry")])
+    N([L1("SingleQubitOperation", 0, dur=4, dstrat="dynamic"), L1("Rx90", 0)])
+    N([L1("VirtualPhase", 1, dur=4, dstrat="dynamic"), L1("TwoQubitOperation", 0, 1, dur=2, dstrat="registry")])
+    for rs in ("dynamic", "registry"):
+        N([{"sub": [L1("Rym90", 0)], "reps": 1, "rstrat": rs}, L1("Rx90", 0)])
+        N([L1("Rx180", 0), {"sub": [wd, L1("Hadamard", 1)], "reps": 1, "rstrat": rs}])
+        N([{"sub": [L1("Rym90", 0), L1("Wait", 0, dur=7, dstrat="registry")], "reps": 2, "rstrat": rs}, L1("Rx90", 2)])
+        N([{"sub": [{"sub": [wd], "reps": 2, "rstrat": rs}, L1("Reset", 1)], "reps": 3, "rstrat": "dynamic"}, L1("Ry90", 1)])
+        N([L1("Rx90", 2), {"sub": [L1("Rym90", 0), wd], "reps": 2, "rstrat": rs}], apply_modifiers=True)
     return out
 
 
@@ -896,7 +1010,7 @@ def names_child(path):
 
 
 def xproc_programs(seed):
-    progs = [p for p in t_space() if p["check"] == "table"][::9]
+    progs = [p for p in t_space() if p["check"] == "table"][::9] + [p for p in t_space() if p["check"] == "names"]
     progs += [r_program(seed, i) for i in range(60)]
     progs += [e_decode(i, e_alphabet("thorough"), 3) for i in range(0, 6000, 121)]
     return progs
@@ -935,7 +1049,7 @@ def xproc_finish(started, res):
     for prog, a, b in zip(progs, runs[0], runs[1]):
         n += 1
         if a != b:
-            key = "C15:names:differs-between-interpreter-runs"
+            key = names_key("between-interpreter-runs", prog, a, b)
             res.fail(key, "same circuit -> same program and kernel names (two interpreter runs, PYTHONHASHSEED 1 / 2)",
                      "OpenQLCircuitFactoryManager.construct_uuid", {"program": prog}, b, a, {"program": prog, "key": key})
     return n
@@ -1045,14 +1159,15 @@ def main():
         "openql.Kernel + a recording stand-in for openql.Program that applies openql's duplicate-kernel-name rule (the bulk, because the real Program.add_program costs ~7 ms); "
         "after a raise the export is repeated against plain recording stand-ins so that order and repetition are still evaluated.  "
         "T: %d dedicated programs (each of the 13 supported kinds x qubits {0,1,2,5,16}; CPhase on all ordered pairs of {0,1,2,16}; barriers on 1..17 qubits; waits of "
-        "0..100000 on all channels, 3 fractional durations; each of the 13 unsupported kinds alone and between supported operations).  "
+        "0..100000 on all channels, 3 fractional durations; each of the 13 unsupported kinds alone and between supported operations; %d programs whose operations / sub-circuits use "
+        "DynamicDurationStrategy (fresh lambda per build), RegistryDurationStrategy, GlobalDurationStrategy, DynamicRepetitionStrategy or RegistryRepetitionStrategy, for the name clause).  "
         "E: ALL sequences of 1..%d items over an alphabet of %d items = %d programs, enumerated completely: %d leaf items (%s) and %d sub-circuit items "
         "(%d bodies: 1-2 leaves over %s, plus 3 bodies containing a sub-sub-circuit; x repetition counts %s).  "
         "R: %d seeded random programs (1..8 items per level, nesting depth <= 3, repetition counts 1..4, all 26 kinds, 2..5 qubits, explicit "
         "FOLLOWED_BY/JOINED_START/JOINED_END relations to earlier items, optional circuit_id, IDeclarativeCircuit or bare structure as argument, 10%% exported after "
-        "apply_modifiers()).  "
+        "apply_modifiers(), 15%% decorated with dynamic / registry / global duration strategies and dynamic / registry repetition strategies).  "
         "Non-trivial: contains a sub-circuit or at least two supported operations.  The property's space is infinite, hence exhaustive=false although E is complete."
-        % (sum(real_inputs.values()), e_real_every, r_real_every, t_total, maxlen, len(alphabet), e_total, n_leaf,
+        % (sum(real_inputs.values()), e_real_every, r_real_every, t_total, sum(p["check"] == "names" for p in t_space()), maxlen, len(alphabet), e_total, n_leaf,
            ", ".join("%s%s" % (a["op"], tuple(a["q"])) for a in alphabet[:n_leaf]), len(alphabet) - n_leaf,
            (len(alphabet) - n_leaf) // (2 if quick else 3), "{Rym90(0), Hadamard(1), Rx180ef(0)}" if quick else "{Rym90(0), Hadamard(1), Rx180ef(0), Reset(2)}",
            "{1,2}" if quick else "{1,2,3}", r_total))
@@ -1074,7 +1189,8 @@ def main():
          "evaluations": ev("raises")},
         {"function": "OpenQLCircuitFactoryManager.construct_uuid / construct (names)",
          "contract": "names of all constructed programs and kernels, in order, are equal for: the same object exported twice; the same build program rebuilt; "
-                     "two interpreter runs with PYTHONHASHSEED 1 and 2",
+                     "two interpreter runs with PYTHONHASHSEED 1 and 2; including programs with dynamic (fresh lambda per build) / registry / global "
+                     "duration strategies and dynamic / registry repetition strategies",
          "bound": "every T and R input, every %dth E input; %d programs across interpreter runs" % (names_every, n_x), "evaluations": ev("names") + n_x},
         {"function": "recording model of openql.Program / Kernel (harness self-check)",
          "contract": "cQASM written by the real Program.compile() == kernel sections and instructions derived from the recorded calls (each call translated by a one-instruction "
@@ -1102,7 +1218,7 @@ def replay(path):
         print("C15 replay: no program in %s" % path)
         return 2
     found = []
-    if key == "C15:names:differs-between-interpreter-runs":
+    if key and key.startswith("C15:names:not-deterministic:between-interpreter-runs"):
         res = common.Result(PROP)
         global xproc_programs
         xproc_programs = lambda seed: [program]  # noqa: E731
